@@ -239,6 +239,34 @@ CHECKS = {
         "the third-refusal path of the interruptor is proved but not produced by the generator.",
    technique="Lean 4 invariant proofs on the timeout state machine + virtual-clock trace acceptance",
    design="6 C16"),
+ "C09": dict(
+   text="Lean 4 proof on a model of the asyncio kernel (futures with callbacks, tasks with _fut_waiter/_must_cancel, ready "
+        "handles incl. task-bound callbacks that are not step/wakeup, 15 event kinds incl. cancel in every state, "
+        "task_throw/task_interrupt): in every reachable state each not-done, not-running task has exactly one of {one "
+        "step/wakeup handle in the ready queue, one wake-up registered on a pending future} (kernel_inv, exactly_one_place), "
+        "all_tasks is the disjoint union of runnable, blocked and current in all three calling contexts and the internal "
+        "assertions hold (partition), task_is_runnable agrees with ready-queue membership (isRunnable_iff_inReady), the two set "
+        "functions never raise (api_total). Tie: trace acceptance - real primitives stepped one ready handle at a time on "
+        "the three loop configurations with PRNG-chosen environment actions, every event replayed by the Lean kernel; "
+        "oracle: the partition identity after every action, from callbacks and from outside the stopped loop.",
+   note="Trusted: Lean kernel + standard axioms; asyncio Task.__step/__wakeup/cancel, Future callbacks and call_soon are "
+        "modelled (validated by trace acceptance); tasks await plain futures in recorded traces.",
+   technique="Lean 4 invariant proof over all kernel event sequences + trace acceptance",
+   design="6 C09"),
+ "C15": dict(
+   text="Lean 4 proof on the same kernel model: task_throw on a never-started, blocked or woken-not-run Python task leaves "
+        "exactly one step handle carrying the exception, no wake-up registered, _fut_waiter cleared (throw_makes_runnable); "
+        "the exception is raised in the target at most once and exactly once unless superseded or refused "
+        "(throw_exactly_once with ghost accounting); refusals change nothing (throw_refused_no_change); the awaited future, "
+        "its other callbacks and its later completion are untouched and no kernel error event is reachable "
+        "(awaited_untouched, no_kernel_error); await task_interrupt runs the target next (interrupt_runs_next). Tie: trace "
+        "acceptance with throws, interrupts, cancels, mutual interruption and races with completion on three loops; oracle: "
+        "per-interrupt delivery log, first task to log after task_interrupt, awaited objects, loop exception-handler calls.",
+   note="Trusted: as C09. A cancel() issued after task_throw but before the target runs is treated as superseding "
+        "(asyncio's Task.__step replaces a non-CancelledError by CancelledError; asynkit has no code on that path); an "
+        "orphaned shield() future is counted, not judged; stdlib asyncio.Lock sections use CancelledError-derived interrupts only.",
+   technique="Lean 4 invariant proofs with ghost delivery accounting + trace acceptance",
+   design="6 C15"),
 }
 
 def main():
